@@ -297,7 +297,7 @@ func runC10(r *ev.Run) {
 	r.Set("sequences", seqs.Load())
 	r.Set("uci_histories", uciRuns.Load())
 	r.Set("distinct_outcomes", map[string]int64{"count_2": twos.Load(), "count_3": threes.Load(), "count_1": steps.Load() - twos.Load() - threes.Load()})
-	r.Set("rule", "all move sequences up to the stated length over small move alphabets from 10 shuffle roots (knight/king/rook oscillations, rooks losing castling rights on the way, double pushes creating transient en-passant rights, FEN roots with capturable and non-capturable targets, irreversible moves mid-history), by DFS over the real MakeMove/UndoMove; after every step Threefold() must equal min(3, occurrences of the reference key in the history); every 16th complete history also through `position fen .. moves ..` on a real driver; non-trivial = steps whose true count is 2 or 3")
+	r.Set("rule", "all move sequences up to the stated length over small move alphabets from 20 shuffle roots (knight/king/rook oscillations, rooks losing castling rights on the way, double pushes creating transient en-passant rights, FEN roots with capturable and non-capturable targets, irreversible moves mid-history), by DFS over the real MakeMove/UndoMove; after every step Threefold() must equal min(3, occurrences of the reference key in the history); every 16th complete history also through `position fen .. moves ..` on a real driver; deterministic histories of 300-600 plies over the same alphabets; four games from the same constructor (StartPos / FromFEN) advanced round-robin; non-trivial = steps whose true count is 2 or 3")
 }
 
 // c10Interleaved advances k boards obtained from the same constructor round-robin with different shuffles
